@@ -155,6 +155,13 @@ theorem signed_add_exact (wa a wb b : Nat) (hwa : 0 < wa) (hwb : 0 < wb) (ha : a
     toSigned (signedAdd (wa, a) (wb, b)) = toSigned (wa, a) + toSigned (wb, b) :=
   signedAdd_exact wa a wb b hwa hwb ha hb
 
+/-- **`signed_mult`** for operands of any two widths: `len(a)+len(b)` result bits hold exactly the product of
+    the two two's-complement values. -/
+theorem signed_mult_exact (wa a wb b : Nat) (hwa : 0 < wa) (hwb : 0 < wb) (ha : a < 2 ^ wa) (hb : b < 2 ^ wb) :
+    (signedMult (wa, a) (wb, b)).1 = wa + wb ∧
+    toSigned (signedMult (wa, a) (wb, b)) = toSigned (wa, a) * toSigned (wb, b) :=
+  signedMult_exact wa a wb b hwa hwb ha hb
+
 -- -1 (1 bit) is not less than -1 (2 bits); -2 (2 bits) is less than 1 (3 bits)
 example : signedLt (1, 1) (2, 3) = 0 ∧ signedLt (2, 2) (3, 1) = 1 := by decide
 
